@@ -226,7 +226,7 @@ def real_encode(T, d, ops):
 
 # ------------------------------------------------------------------ regen
 def export_all(ctx):
-    import c08_trace as T
+    from props import c08_trace as T
     info = {}
     for nm, an in T.ARCHS:
         try:
@@ -340,7 +340,7 @@ def correspondence(ctx, T, info):
 def search(ctx, T=None, info=None):
     """implementation vs independent references: operand read-back, RV32 reference decoder, m68k line nibble"""
     if T is None:
-        import c08_trace as T
+        from props import c08_trace as T
         info = {}
         for nm, an in T.ARCHS:
             try:
